@@ -359,7 +359,7 @@ func planKind(src core.FlatRowSource) string {
 			continue
 		}
 		t = strings.ToLower(t[3:])
-		if strings.HasPrefix(t, "order by") || strings.HasPrefix(t, "limit") || strings.HasPrefix(t, "offset") {
+		if t == "query" || strings.HasPrefix(t, "order by") || strings.HasPrefix(t, "limit") || strings.HasPrefix(t, "offset") {
 			continue
 		}
 		if strings.HasPrefix(t, "cluster flat ") {
